@@ -260,6 +260,10 @@ func c09BGV(ctx *core.RunCtx, scaleInvariant bool) *c09Scheme {
 		{name: "InnerSum", op1: []int{vNone}, ks: []int{1, 2}, needDeg1: true, deg: degOne, call: func(e any, a *rlwe.Ciphertext, b any, k int, o *rlwe.Ciphertext) error {
 			return ev(e).InnerSum(a, k, 4, o)
 		}},
+		{name: "InnerSum(all slots, one batch)", op1: []int{vNone}, needDeg1: true, deg: degOne, call: func(e any, a *rlwe.Ciphertext, b any, k int, o *rlwe.Ciphertext) error {
+			// the degenerate sum over a single batch of all slots: the value of the input
+			return ev(e).InnerSum(a, bp.MaxSlots(), 1, o)
+		}},
 		{name: "DropLevel", op1: []int{vNone}, inplace: true, deg: degSame, call: func(e any, a *rlwe.Ciphertext, b any, k int, o *rlwe.Ciphertext) error {
 			if a.Level() == 0 {
 				return fmt.Errorf("level 0")
@@ -669,6 +673,18 @@ func c09CKKS(ctx *core.RunCtx) *c09Scheme {
 		}},
 		{name: "lintrans.Evaluate", op1: []int{vNone}, ks: []int{0, 1, 2, 3}, needDeg1: true, deg: degOne, call: func(e any, a *rlwe.Ciphertext, b any, k int, o *rlwe.Ciphertext) error {
 			return e.(*c09Sys).lt.Evaluate(a, cc.lts[k], o)
+		}},
+		{name: "lintrans.EvaluateMany", op1: []int{vNone}, ks: []int{0, 1, 2, 3}, needDeg1: true, deg: degOne, call: func(e any, a *rlwe.Ciphertext, b any, k int, o *rlwe.Ciphertext) error {
+			// two transformations of one input (k: which pair, and whether the designated output is the first
+			// or the second receiver); the other receiver is new and reported through c09Aux
+			lts := []cklt.LinearTransformation{cc.lts[k&1], cc.lts[2+(k&1)]}
+			outs := []*rlwe.Ciphertext{ckks.NewCiphertext(cp, 1, a.Level()), ckks.NewCiphertext(cp, 1, a.Level())}
+			outs[k>>1] = o
+			if err := e.(*c09Sys).lt.EvaluateMany(a, lts, outs); err != nil {
+				return err
+			}
+			c09Aux = canonHashCt(cp.Parameters, outs[1-k>>1])
+			return nil
 		}},
 		{name: "Average", op1: []int{vNone}, needDeg1: true, deg: degOne, call: func(e any, a *rlwe.Ciphertext, b any, k int, o *rlwe.Ciphertext) error {
 			return ev(e).Average(a, cp.LogMaxSlots()-2, o)
